@@ -92,13 +92,15 @@ BLK = (" The unpack methods of the messages whose field table depends on the pay
        "the assert of ESFLA, one block of fields per count with no name ever twice, the second pass over everything (Proofs/SrcEquiv/Blocks; TransferBlocks).")
 FLD = (" The bookkeeping of the field container (Fields.__init__ / next_ord / add / get) is translated too (tools/pysrc2lean_fields.py -> Gen/SrcFields.lean) and what the other translations take "
        "as primitives is proved of it: the items sorted by their ordinal are the items in the order added, for every history of add calls; add refuses exactly the names already there (Proofs/SrcEquiv/Fields).")
+STR = (" The base renderers (Item.__str__, Fields.__str__, UbxFrame.__str__) are translated too (tools/pysrc2lean_str.py -> Gen/SrcStr.lean) and the first clause is proved of them for every frame: "
+       "whenever str(frame) returns, the text holds the message name and the name of every field that is no padding, and it returns whenever every item's own text does (Proofs/SrcEquiv/Str).")
 FAC = (" The frame registry (frame_factory.py register / build / build_with_data, UbxFrame.construct) is translated too (tools/pysrc2lean_factory.py -> Gen/SrcFactory.lean, over a model of dict) "
        "and proved to answer like the model's registry after any history of registrations; build_with_data is the primitive the request loop's translation uses (Proofs/SrcEquiv/Factory; TransferFactory).")
 GPS = (" Source-level tie: _parse_gpsd_msg / _parse_version / _parse_devices of server.py are translated from the Python AST on every run "
        "(tools/pysrc2lean_gpsd.py -> Gen/SrcGpsd.lean; subscript / iteration / membership / comparison on a decoded JSON value of any shape are primitives of Model/PyGpsd.lean) "
        "and proved equal to the model's parseChunk on well-formed chunks; 'enabled exactly when a device is selected' is proved on the generated definitions for every chunk, "
        "ill-formed ones and calls that end in an exception included (Proofs/SrcEquiv/Gpsd; TransferGpsd).")
-SRC = {'C20': GPS, 'C19': RND, 'C17': HLP + BLK, 'C07': TYP + BLK + FLD, 'C08': TYP + VGT + BLK + FLD, 'C04': SRV + FAC, 'C05': SRV, 'C06': SRV + FAC, 'C10': SRV + FAC, 'C12': SRV + TTY, 'C13': CFG, 'C14': CFG + VGT + VST,
+SRC = {'C20': GPS, 'C19': RND + STR, 'C17': HLP + BLK, 'C07': TYP + BLK + FLD, 'C08': TYP + VGT + BLK + FLD, 'C04': SRV + FAC, 'C05': SRV, 'C06': SRV + FAC, 'C10': SRV + FAC, 'C12': SRV + TTY, 'C13': CFG, 'C14': CFG + VGT + VST,
        'C01': PARSE, 'C02': PARSE, 'C03': PARSE, 'C09': PARSE, 'C11': PARSE, 'C15': PARSE, 'C16': PARSE, 'C18': PARSE + TTY}
 SRCTECH = ' + source-level translation (Python AST -> Lean) proved equal to the model'
 
